@@ -120,7 +120,7 @@ func GenStream(r *payload.SplitMix, max int) Stream {
 	big := 0
 	for a := 0; a < nact; a++ {
 		kind := uint8(1 + r.Intn(7))
-		act := r.Intn(22)
+		act := r.Intn(23)
 		if effMax >= 1<<20 && big >= 2 && (act == 1 || act == 2) {
 			act = 0 // keep default-max streams affordable
 		}
@@ -233,6 +233,16 @@ func GenStream(r *payload.SplitMix, max int) Stream {
 			st.Edges = append(st.Edges, len(b))
 			desc = append(desc, fmt.Sprintf("long-header(s%d,m%d,len%d,hdr%d)", sid, mid, n, len(hdr)))
 			mid++
+		case act == 22: // the largest message id of one stream, then ordinary ids of the next stream (and the one after)
+			emit(refwire.Frame{Stream: sid, Message: ^uint64(0) - 1, Kind: kind, Done: true, Data: body(r.Intn(10))})
+			emit(refwire.Frame{Stream: sid, Message: ^uint64(0), Kind: kind, Done: true, Data: body(r.Intn(10))})
+			sid++
+			mid = uint64(1 + r.Intn(3))
+			for k := 0; k < 1+r.Intn(3); k++ {
+				emit(refwire.Frame{Stream: sid, Message: mid, Kind: kind, Done: true, Data: body(r.Intn(10))})
+				mid++
+			}
+			desc = append(desc, fmt.Sprintf("max-message-id-then-next-stream(s%d)", sid))
 		case act == 20: // a packet with the largest message id, then ids that would be "next" only if the counter wrapped
 			lastStream := r.Intn(3) == 0 // the very last id there is: the stream id is the largest one too
 			if lastStream {
